@@ -457,6 +457,7 @@ def LinkObs.next (o : LinkObs) (st : SimState) : LinkObs :=
 
 /-! ## ACLObservation -/
 
+/-- The object as it is after `__init__` (lists already de-duplicated, see `AclObs.fromConfig`). -/
 structure AclObs where
   /-- (hostname, name of the ACL inside the node state: `"acl"`, `"internal_inbound_acl"`, …) -/
   wh : Option (String × String)
@@ -475,10 +476,21 @@ def idOf {α} [DecidableEq α] (l : List α) (x : α) (k : Nat := 2) : Option Na
     | some i => some i
     | none => if x = y then some k else none
 
+/-- `list(dict.fromkeys(l))`: the distinct entries in order of first occurrence (applied to the four lists in `__init__`) -/
+def dedupFirst {α} [DecidableEq α] : List α → List α
+  | [] => []
+  | y :: ys => y :: (dedupFirst ys).filter (fun x => decide (x ≠ y))
+
 /-- `len({p: … for p in l})`: number of distinct entries -/
 def distinctCount {α} [DecidableEq α] : List α → Nat
   | [] => 0
   | y :: ys => if y ∈ ys then distinctCount ys else distinctCount ys + 1
+
+/-- `ACLObservation.__init__`: the object keeps id tables built from the de-duplicated lists -/
+def AclObs.fromConfig (wh : Option (String × String)) (numRules : Nat) (ips wcs : List String) (ports : List Nat)
+    (protos : List String) : AclObs :=
+  { wh := wh, numRules := numRules, ips := dedupFirst ips, wcs := dedupFirst wcs, ports := dedupFirst ports,
+    protos := dedupFirst protos }
 
 def aclRuleKeys : List String :=
   ["position", "permission", "source_ip_id", "source_wildcard_id", "source_port_id", "dest_ip_id", "dest_wildcard_id",
@@ -662,7 +674,7 @@ structure FirewallObs where
   deriving Repr
 
 def FirewallObs.acl (o : FirewallObs) (name : String) : AclObs :=
-  { wh := some (o.wh, name), numRules := o.numRules, ips := o.ips, wcs := o.wcs, ports := o.ports, protos := o.protos }
+  AclObs.fromConfig (some (o.wh, name)) o.numRules o.ips o.wcs o.ports o.protos
 
 def FirewallObs.port (o : FirewallObs) (i : Nat) : PortObs := { wh := some (o.wh, i) }
 
